@@ -3,18 +3,19 @@
 # Confirms a sub-agent's change: applies patch<n>.diff to a scratch worktree at /repo HEAD, runs the repository suite,
 # runs demo<n>.py with and without the change, then runs the given checks against the changed tree.
 sd=$1; n=$2; ids=$3; tier=${4:-quick}
-M=/tmp/mut
+M=${MUT:-/tmp/mut}
+T=$M.tmp
 [ -d $M ] || git -C /repo worktree add -q --detach $M HEAD
 git -C $M checkout -q --detach $(git -C /repo rev-parse HEAD) 2>/dev/null
 git -C $M checkout -q -- . ; git -C $M clean -fdq
-if ! git -C $M apply --whitespace=nowarn $sd/patch$n.diff 2>/tmp/seed_apply.err; then echo "PATCH DOES NOT APPLY: $(head -2 /tmp/seed_apply.err)"; exit 2; fi
+if ! git -C $M apply --whitespace=nowarn $sd/patch$n.diff 2>$T.apply.err; then echo "PATCH DOES NOT APPLY: $(head -2 $T.apply.err)"; exit 2; fi
 echo "suite with change: $(cd $M && /venv/bin/python -m pytest -q -p no:cacheprovider --timeout=900 --continue-on-collection-errors 2>&1 | tail -1)"
 mkdir -p $M/_seed; cp $sd/demo$n.py $M/_seed/
-(cd $M && timeout 300 /venv/bin/python _seed/demo$n.py >/tmp/seed_demo.out 2>&1); echo "demo with change: rc=$? $(tail -1 /tmp/seed_demo.out | cut -c1-160)"
+(cd $M && timeout 300 /venv/bin/python _seed/demo$n.py >$T.demo.out 2>&1); echo "demo with change: rc=$? $(tail -1 $T.demo.out | cut -c1-160)"
 for id in $ids; do
   out=$(STIXMON_REPO=$M ./vcheck $id --tier $tier 2>&1); rc=$?
   echo "  [$id $tier rc=$rc] $(echo "$out" | grep -E '^VIOLATION|^INCONCLUSIVE' | head -3 | cut -c1-240)"
 done
 git -C $M checkout -q -- stix2
-(cd $M && timeout 300 /venv/bin/python _seed/demo$n.py >/tmp/seed_demo.out 2>&1); echo "demo without change: rc=$?"
+(cd $M && timeout 300 /venv/bin/python _seed/demo$n.py >$T.demo.out 2>&1); echo "demo without change: rc=$?"
 rm -rf $M/_seed
